@@ -19,6 +19,11 @@
 (*   fire_after_clear an event scheduled before a clear() runs after that clear() returned          *)
 (*   fire_unknown     a callback that was never scheduled                                           *)
 (* A Fire between ClearCall and ClearRet is not judged by the clear clause (it raced the clear).    *)
+(* Instant of a run: in an *exact* execution (Reset.exact: the driver moved the clock only while    *)
+(* the timer thread was settled, and callbacks that take time moved it themselves) the clock read   *)
+(* inside the callback (now2) is the instant the callback began and is used for every clause; in    *)
+(* the other executions clock advances race the thread and the only sound instant is the one the    *)
+(* thread last read (now).  An unsettled wait ends exactness.                                       *)
 (* Design conformance (label only): whether Timer.tla's Fire is enabled for that event on the       *)
 (* monitor's queue.                                                                                 *)
 EXTENDS Common, Timer
@@ -28,28 +33,30 @@ VARIABLES l, ms, fails, nexec, labels
 EmptyFn == [x \in {} |-> 0]
 Ev == TraceLog[l]
 
-MsInit == [live |-> TRUE, pend |-> NoEvents, sure |-> {}, ran |-> EmptyFn, final |-> {}, cleared |-> {}]
+MsInit == [live |-> TRUE, exact |-> FALSE, pend |-> NoEvents, sure |-> {}, ran |-> EmptyFn, final |-> {}, cleared |-> {}]
 MsNone == [live |-> FALSE]
 
 FireStep(m, e) ==
-    LET i == e.id IN
+    LET i == e.id
+        t == IF m.exact THEN e.now2 ELSE e.now IN
     IF i \notin Ids(m.pend)
     THEN [ok |-> FALSE, m |-> m, lab |-> "",
           why |-> IF i \in m.cleared THEN "fire_after_clear" ELSE IF i \in m.final THEN "fire_after_final" ELSE "fire_unknown"]
     ELSE
         LET p == m.pend[i]
-            why == IF e.now < p.due THEN (IF i \in DOMAIN m.ran THEN "repeat_too_soon" ELSE "early")
+            why == IF t < p.due THEN (IF i \in DOMAIN m.ran THEN "repeat_too_soon" ELSE "early")
                    ELSE IF \E j \in m.sure \cap Ids(m.pend) : j # i /\ m.pend[j].due < p.due THEN "due_order"
                    ELSE ""
-            p2 == AfterFire(m.pend, e.now, i, e.ret, {})
+            p2 == AfterFire(m.pend, t, i, e.ret, {})
         IN [ok |-> why = "", why |-> why,
-            lab |-> IF i \in Fireable(m.pend, e.now, {}) THEN (IF e.now = p.due THEN "design:Fire_on_time" ELSE "design:Fire_late")
+            lab |-> IF i \in Fireable(m.pend, t, {}) THEN (IF t = p.due THEN "design:Fire_on_time" ELSE "design:Fire_late")
                     ELSE "design:Fire_not_enabled",
-            m |-> [m EXCEPT !.pend = p2, !.ran = (i :> e.now) @@ m.ran,
+            m |-> [m EXCEPT !.pend = p2, !.ran = (i :> t) @@ m.ran,
                             !.final = IF i \in Ids(p2) THEN m.final ELSE m.final \cup {i}]]
 
 MonStep(m, e) ==
-    IF e.e = "Reset" THEN [ok |-> TRUE, why |-> "", m |-> MsInit, lab |-> ""]
+    IF e.e = "Reset" THEN [ok |-> TRUE, why |-> "", m |-> [MsInit EXCEPT !.exact = Get(e, "exact", FALSE)], lab |-> ""]
+    ELSE IF e.e = "Settle" /\ m.live /\ ~e.ok THEN [ok |-> TRUE, why |-> "", m |-> [m EXCEPT !.exact = FALSE], lab |-> "exactness_lost"]
     ELSE IF ~m.live THEN [ok |-> TRUE, why |-> "", m |-> m, lab |-> ""]
     ELSE IF e.e = "SchedCall" THEN
         [ok |-> TRUE, why |-> "", lab |-> "",
